@@ -152,7 +152,12 @@ pub fn build_builder(
     #[cfg(feature = "par")]
     if let Some(p) = pool.clone() {
         if opts.pool_attach == 0 {
-            b.add_pool(p);
+            // both spellings
+            if bid % 2 == 0 {
+                b.add_pool(p);
+            } else {
+                b = b.with_pool(p);
+            }
         } else if opts.pool_attach == 2 && bid == 0 {
             b.add_pool(crate::build::pool(900, 1));
         }
